@@ -8,7 +8,9 @@ import io
 import sys
 import types
 
-from vf.stubs import mod, patched
+from vf.stubs import mod, patched, ModuleState
+
+_MAIN_STATE = ModuleState(mod('python_minifier.__main__'))
 
 BOOL_DESTS = ['combine_imports', 'remove_pass', 'remove_literal_statements', 'hoist_literals', 'rename_locals',
               'rename_globals', 'remove_object_base', 'convert_posargs_to_args', 'preserve_shebang', 'remove_asserts',
@@ -177,6 +179,7 @@ class Env(object):
     @contextlib.contextmanager
     def installed(self, args=None, minify=None, do_minify=None):
         m = mod('python_minifier.__main__')
+        _MAIN_STATE.reset()
         with contextlib.ExitStack() as st:
             st.enter_context(patched(m, 'os', self.make_os()))
             st.enter_context(patched(m, 'sys', self.make_sys()))
